@@ -240,6 +240,9 @@ func (h *harness) sectionHistOps() {
 		}
 		h.opDparse(pool)
 	}
+	// ---- alpine: the witness of fix 9c7e43c2 (a 5xx on a release directory in a
+	// walk that completes; the mirror answers again under the same stamp)
+	h.alpineWitness()
 	// ---- alpine: one factory per scenario
 	for sc := h.cfg.N(40, 400); sc > 0 && !r.Stop(); sc-- {
 		h.alpineScenario()
@@ -414,5 +417,67 @@ func (h *harness) alpineScenario() {
 		out := call()
 		r.Op(fmt.Sprintf("alp s %d %s %s %s", stamp, hs(etag), dirTok, jsonTok), out, strings.HasPrefix(out, "set "))
 		r.Count("alp:" + strings.SplitN(out, " ", 2)[0])
+	}
+}
+
+// alpineWitness: v3.4/ answers 500 during the first walk, 200 from then on;
+// last-update does not change.  The second call must hand out v3.4's updater.
+func (h *harness) alpineWitness() {
+	ctx, r := h.ctx, h.r
+	w := newWorld()
+	w.conditional = true
+	f, _ := alpine.NewFactory(ctx)
+	if err := f.Configure(ctx, func(v any) error {
+		if c, ok := v.(*alpine.FactoryConfig); ok {
+			c.URL = "http://alpine.test/"
+		}
+		return nil
+	}, w.client()); err != nil {
+		r.Fail("", "alpine factory: configure: "+err.Error())
+		return
+	}
+	r.Op("alp new", "ok", false)
+	w.put("alpine.test/last-update", 200, "text/plain", []byte("stamp-1"), "etag", `"s1"`)
+	var js []string
+	for _, rel := range []string{"v3.3", "v3.4", "v3.5", "edge"} {
+		if rel != "edge" {
+			w.put("alpine.test/"+rel+"/", 200, "text/html", []byte("<html></html>"))
+		}
+		w.put("alpine.test/"+rel+"/main.json", 200, "application/json", []byte("{}"))
+		js = append(js, hs(rel)+"/"+hs("main")+"=o")
+	}
+	call := func() (string, []string) {
+		us, err := f.UpdaterSet(ctx)
+		if err != nil {
+			return "err", nil
+		}
+		var names, toks []string
+		for _, u := range us.Updaters() {
+			names = append(names, u.Name())
+		}
+		sort.Strings(names)
+		for _, n := range names {
+			toks = append(toks, hs(n))
+		}
+		if len(toks) == 0 {
+			return "set -", names
+		}
+		return "set " + strings.Join(toks, ","), names
+	}
+	w.faults["alpine.test/v3.4/"] = fault{status: 500}
+	out, _ := call()
+	r.Op("alp s 1 "+hs(`"s1"`)+" 3.3=o,3.4=x,3.5=o "+strings.Join(js, ","), out, true)
+	delete(w.faults, "alpine.test/v3.4/")
+	out, names := call()
+	r.Op("alp s 1 "+hs(`"s1"`)+" 3.3=o,3.4=o,3.5=o "+strings.Join(js, ","), out, true)
+	r.Case("alpine factory: a release skipped on a 5xx comes back under the same stamp", true)
+	found := false
+	for _, n := range names {
+		if n == "alpine-main-v3.4-updater" {
+			found = true
+		}
+	}
+	if !found {
+		r.Fail("", fmt.Sprintf("alpine factory: HEAD v3.4/ answered 500 in the first enumeration and 200 in the second (last-update unchanged): the second UpdaterSet call hands out %v, without the updater of v3.4", names))
 	}
 }
